@@ -251,7 +251,7 @@ pub fn run(ctx: &Ctx) -> i32 {
     }
     // random prefix-related families
     let n = if ctx.thorough { 150_000 } else { 10_000 };
-    let names = ["ab", "abc", "graph", "meta", "case", "classes", "mixed", "ws", "astral", "clusters"];
+    let names = ["ab", "abc", "graph", "meta", "case", "classes", "mixed", "ws", "astral", "clusters", "tokens"];
     let alphabets: Vec<(String, Vec<String>)> = names.iter().map(|a| (a.to_string(), gen::alphabet(a))).collect();
     par_for(&ctx.run, n, |i, st| {
         let mut rng = Rng::new(seed, 0x80_0000 + i as u64);
